@@ -156,6 +156,12 @@ Example C16_example :
           ++ [200%N] ++ of_str "\""""}"%string).
 Proof. vm_compute. reflexivity. Qed.
 
+(* the hypothesis of C16_no_panic is satisfiable: the index vector of the example obeys the contract *)
+Example C16_example_contract :
+  pairs_ok (zlen (of_str "abc 007 1.5 true x"%string ++ [1; 200; 34]%N))
+           [0; 21; 0; 3; 4; 7; 8; 11; 12; 16; -1; -1; 17; 21]%Z = true.
+Proof. vm_compute. reflexivity. Qed.
+
 (* the reader is strict: leading zero, digitless fraction, raw control byte, trailing comma,
    missing colon, trailing garbage, misspelt literal, unknown escape are all rejected *)
 Example C16_example_reader_strict :
